@@ -297,9 +297,11 @@ def generate(ctx):
             arms.append('if radix == %d { %snat }' % (r, args[1]))
     parts.append('pub open spec fn divisor_of(radix: u32) -> nat { %s else { 0 } }' % ' else '.join(arms))
     parts.append('pub open spec fn radix_ok(radix: u32) -> bool { %s }' % ' || '.join('radix == %d' % r for r in rs))
+    need_slow = any(wr[r][0] == 'slow_u128_divrem' for r in rs)
+    if need_slow:
+        parts.append(SLOW_PRELUDE)
     parts.append('>>>')
     parts += [MULHI, POW2, FAST, MODERATE]
-    need_slow = any(wr[r][0] == 'slow_u128_divrem' for r in rs)
     if need_slow:
         parts.append(SLOW)
     for r in rs:
@@ -339,7 +341,15 @@ def generate(ctx):
             sub = ''
         else:
             d, ctlz = args[1:]
-            hint = ''
+            c = int(ctlz)
+            hint = '''  before /slow_u128_divrem\\(/ <<<
+    proof {
+        lemma2_to64();
+        assert(pw(2, %d) <= %snat && %snat < pw(2, %d)) by(compute_only);
+        lemma_pw2(%d); lemma_pw2(%d);
+        lemma_lz_unique(%su64, %d);
+    }
+>>>''' % (63 - c, d, d, 64 - c, 63 - c, 64 - c, d, c)
             ens = 'ensures ret.0 as nat == n as nat / %snat, ret.1 as nat == n as nat %% %snat' % (d, d)
             sub = ''
         parts.append('fn div128::u128_divrem_%d\n%s  spec <<<\n    %s\n>>>\n%s\nend\n' % (r, sub, ens, hint))
@@ -354,12 +364,289 @@ end
     return '\n'.join(parts)
 
 
+SLOW_PRELUDE = r'''
+pub open spec fn P127() -> nat { 0x8000_0000_0000_0000_0000_0000_0000_0000nat }
+
+proof fn lemma_p127() ensures pow2(127) == P127(), pow2(128) == 2 * P127(), pow2(63) == 0x8000_0000_0000_0000nat {
+    lemma2_to64();
+    lemma_pow2_adds(32, 31);
+    assert(0x1_0000_0000nat * 0x8000_0000nat == 0x8000_0000_0000_0000nat) by(compute_only);
+    lemma_pow2_adds(64, 63);
+    assert(0x1_0000_0000_0000_0000nat * 0x8000_0000_0000_0000nat == P127()) by(compute_only);
+    lemma_pow2_adds(1, 127);
+}
+
+// leading zeros characterisation: 2^(63 - lz) <= x < 2^(64 - lz) for x != 0
+proof fn lemma_lz(x: u64) requires x != 0
+    ensures 0 <= u64_leading_zeros(x) <= 63,
+        pow2((63 - u64_leading_zeros(x)) as nat) <= x as nat,
+        (x as nat) < pow2((64 - u64_leading_zeros(x)) as nat),
+    decreases x
+{
+    reveal(u64_leading_zeros);
+    axiom_u64_leading_zeros(x);
+    if x == 1 {
+        assert(u64_leading_zeros(0) == 64);
+        assert(u64_leading_zeros(1) == 63);
+        lemma2_to64();
+    } else {
+        let h = x / 2;
+        lemma_lz(h);
+        let l = u64_leading_zeros(x);
+        assert(u64_leading_zeros(h) == l + 1);
+        lemma_pow2_adds(1, (62 - l) as nat);
+        lemma_pow2_adds(1, (63 - l) as nat);
+        lemma2_to64();
+        assert(pow2((63 - l) as nat) == 2 * pow2((62 - l) as nat));
+        assert(pow2((64 - l) as nat) == 2 * pow2((63 - l) as nat));
+    }
+}
+
+proof fn lemma_pow2_mono(a: nat, b: nat) requires a <= b ensures pow2(a) <= pow2(b) {
+    lemma_pow2_adds(a, (b - a) as nat); lemma_pow2_pos((b - a) as nat); lemma_pow2_pos(a);
+    assert(pow2(a) * 1 <= pow2(a) * pow2((b - a) as nat)) by(nonlinear_arith) requires pow2((b - a) as nat) >= 1;
+}
+
+/// the leading-zero count is determined by the binade: used to check the `d_ctlz` literal of each wrapper
+proof fn lemma_lz_unique(x: u64, c: nat)
+    requires c <= 63, pow2((63 - c) as nat) <= x as nat, (x as nat) < pow2((64 - c) as nat)
+    ensures u64_leading_zeros(x) == c
+{
+    lemma_pow2_pos((63 - c) as nat);
+    lemma_lz(x);
+    let l = u64_leading_zeros(x) as nat;
+    if l < c { lemma_pow2_mono((64 - c) as nat, (63 - l) as nat); }
+    if l > c { lemma_pow2_mono((64 - l) as nat, (63 - c) as nat); }
+}
+
+/// loop invariant of the restoring division: after consuming the top (128 - rem) bits of n:
+///   n / 2^rem == qq * d + r, r < d, and q holds the unconsumed bits of n on top and qq / 2 below (carry == qq % 2).
+pub open spec fn sinv(n: nat, d: nat, rem: nat, q: nat, r: nat, carry: nat, qq: nat) -> bool {
+    &&& rem <= 127
+    &&& r < d
+    &&& n / pow2(rem) == qq * d + r
+    &&& carry == qq % 2
+    &&& q == (n % pow2(rem)) * pow2((128 - rem) as nat) + qq / 2
+    &&& qq < pow2((128 - rem) as nat)
+}
+
+proof fn lemma_sstep(n: nat, d: nat, rem: nat, q: nat, r: nat, carry: nat, qq: nat, top: nat, c2: nat)
+    requires sinv(n, d, rem, q, r, carry, qq), rem >= 1, n < pow2(128), 0 < d < pow2(64),
+        top == q / P127(), c2 == (if 2 * r + top >= d { 1nat } else { 0nat }),
+    ensures
+        top <= 1,
+        sinv(n, d, (rem - 1) as nat, (2 * (q % P127()) + carry) as nat, (2 * r + top - c2 * d) as nat, c2, 2 * qq + c2),
+{
+    let rm = (rem - 1) as nat;
+    let lo = n % pow2(rem);
+    let w = (128 - rem) as nat;
+    lemma2_to64();
+    lemma_pow2_pos(rem); lemma_pow2_pos(rm); lemma_pow2_pos(w); lemma_pow2_pos(w + 1);
+    lemma_pow2_adds(1, rm); lemma_pow2_adds(1, w); lemma_pow2_adds(rem, w); lemma_pow2_adds(rm, w + 1);
+    assert(pow2(1) == 2);
+    assert(pow2(rem) == 2 * pow2(rm));
+    assert(pow2(w + 1) == 2 * pow2(w));
+    lemma_p127();
+    lemma_pow2_adds(rm, w);
+    assert(pow2(rm) * pow2(w) == P127());
+    let b = lo / pow2(rm);
+    let lo2 = lo % pow2(rm);
+    lemma_fundamental_div_mod(lo as int, pow2(rm) as int);
+    lemma_mod_bound(n as int, pow2(rem) as int);
+    assert(b <= 1) by {
+        lemma_div_is_ordered(lo as int, (pow2(rem) - 1) as int, pow2(rm) as int);
+        assert((2 * pow2(rm) - 1) / pow2(rm) as int <= 1) by {
+            lemma_fundamental_div_mod_converse((2 * pow2(rm) - 1) as int, pow2(rm) as int, 1, (pow2(rm) - 1) as int);
+        }
+    }
+    lemma_mod_bound(lo as int, pow2(rm) as int);
+    lemma_fundamental_div_mod(n as int, pow2(rem) as int);
+    let hi = n / pow2(rem);
+    assert(n == (2 * hi + b) * pow2(rm) + lo2) by(nonlinear_arith)
+        requires n == pow2(rem) * hi + lo, pow2(rem) == 2 * pow2(rm), lo == pow2(rm) * b + lo2;
+    lemma_fundamental_div_mod_converse(n as int, pow2(rm) as int, (2 * hi + b) as int, lo2 as int);
+    assert(n / pow2(rm) == 2 * hi + b);
+    assert(n % pow2(rm) == lo2);
+    let rest = lo2 * pow2(w) + qq / 2;
+    assert(qq / 2 <= qq);
+    assert(rest < P127()) by(nonlinear_arith)
+        requires rest == lo2 * pow2(w) + qq / 2, lo2 + 1 <= pow2(rm), qq / 2 < pow2(w), pow2(rm) * pow2(w) == P127();
+    assert(q == P127() * b + rest) by(nonlinear_arith)
+        requires q == lo * pow2(w) + qq / 2, lo == pow2(rm) * b + lo2, rest == lo2 * pow2(w) + qq / 2, pow2(rm) * pow2(w) == P127();
+    lemma_fundamental_div_mod_converse(q as int, P127() as int, b as int, rest as int);
+    assert(top == b);
+    assert(q % P127() == rest);
+    let r1 = 2 * r + top;
+    let qq2 = 2 * qq + c2;
+    assert(n / pow2(rm) == qq2 * d + (r1 - c2 * d)) by(nonlinear_arith)
+        requires n / pow2(rm) == 2 * hi + b, hi == qq * d + r, r1 == 2 * r + b, qq2 == 2 * qq + c2;
+    assert(r1 < 2 * d);
+    assert(qq2 % 2 == c2) by { lemma_fundamental_div_mod_converse(qq2 as int, 2, qq as int, c2 as int); }
+    assert(qq2 / 2 == qq) by { lemma_fundamental_div_mod_converse(qq2 as int, 2, qq as int, c2 as int); }
+    assert(carry + 2 * (qq / 2) == qq) by { lemma_fundamental_div_mod(qq as int, 2); }
+    assert(2 * rest + carry == lo2 * pow2(w + 1) + qq2 / 2) by(nonlinear_arith)
+        requires rest == lo2 * pow2(w) + qq / 2, pow2(w + 1) == 2 * pow2(w), carry + 2 * (qq / 2) == qq, qq2 / 2 == qq;
+    assert(qq2 < pow2(w + 1));
+    assert((128 - rm) as nat == w + 1);
+}
+
+/// x << s == x * 2^s when the product fits (vstd has this lemma for u8..u64 only)
+proof fn lemma_shl_mul(x: u128, s: nat)
+    requires s < 128, (x as nat) * pow2(s) < 0x1_0000_0000_0000_0000nat * 0x1_0000_0000_0000_0000nat,
+    ensures (x << (s as u32)) as nat == (x as nat) * pow2(s),
+    decreases s
+{
+    lemma2_to64();
+    if s == 0 {
+        assert(x << 0u32 == x) by(bit_vector);
+        assert((x as nat) * 1 == x as nat) by(nonlinear_arith);
+    } else {
+        let t = (s - 1) as nat;
+        lemma_pow2_adds(1, t); lemma_pow2_pos(t);
+        assert(pow2(s) == 2 * pow2(t));
+        assert((x as nat) * pow2(t) * 2 == (x as nat) * pow2(s)) by(nonlinear_arith) requires pow2(s) == 2 * pow2(t);
+        lemma_shl_mul(x, t);
+        let y = (x << (t as u32)) as u128;
+        lemma_p127();
+        assert(y < 0x8000_0000_0000_0000_0000_0000_0000_0000u128);
+        let su = s as u32; let tu = t as u32;
+        assert(x << su == (x << tu) << 1u32) by(bit_vector) requires su == tu + 1, su < 128;
+        assert((y << 1u32) == y * 2) by(bit_vector) requires y < 0x8000_0000_0000_0000_0000_0000_0000_0000u128;
+    }
+}
+
+/// the branch-free compare: s = ((d - r - 1) as i128) >> 127 is all-ones iff r >= d
+proof fn lemma_smask(d: u64, r: u128, x: u128, s: i128, m: u128, carry: u64)
+    requires r < 0x8000_0000_0000_0000_0000_0000_0000_0000u128, d > 0,
+        x == (d as u128).wrapping_sub(r).wrapping_sub(1u128),
+        s == ((x as i128) >> 127), carry == ((s & 1) as u64), m == (s as u128),
+    ensures r >= d as u128 ==> carry == 1 && (d as u128) & m == d as u128,
+            r < d as u128 ==> carry == 0 && (d as u128) & m == 0,
+{
+    let dd = d as u128;
+    assert(r >= dd ==> x >= 0x8000_0000_0000_0000_0000_0000_0000_0000u128);
+    assert(r < dd ==> x < 0x8000_0000_0000_0000_0000_0000_0000_0000u128);
+    assert(x >= 0x8000_0000_0000_0000_0000_0000_0000_0000u128 ==> m == 0xffff_ffff_ffff_ffff_ffff_ffff_ffff_ffffu128 && carry == 1u64) by(bit_vector)
+        requires s == ((x as i128) >> 127), carry == ((s & 1) as u64), m == (s as u128);
+    assert(x < 0x8000_0000_0000_0000_0000_0000_0000_0000u128 ==> m == 0u128 && carry == 0u64) by(bit_vector)
+        requires s == ((x as i128) >> 127), carry == ((s & 1) as u64), m == (s as u128);
+    assert(dd & 0xffff_ffff_ffff_ffff_ffff_ffff_ffff_ffffu128 == dd) by(bit_vector);
+    assert(dd & 0u128 == 0u128) by(bit_vector);
+}
+
+proof fn lemma_sinit(n: u128, d: u64, d_ctlz: u32, high: u64, sr: u32, q: u128, r: u128)
+    requires d >= 2, d_ctlz == u64_leading_zeros(d), high == (n >> 64) as u64, high != 0,
+        sr == 65 + d_ctlz - u64_leading_zeros(high), 2 <= sr <= 127,
+        q == n << ((128 - sr) as u32), r == n >> sr,
+    ensures sinv(n as nat, d as nat, sr as nat, q as nat, r as nat, 0, 0),
+{
+    let hlz = u64_leading_zeros(high);
+    let k = (128 - sr) as u32;
+    lemma_lz(d); lemma_lz(high); lemma2_to64(); lemma_p127();
+    lemma_pow2_adds(64, 64);
+    lemma_pow2_pos(sr as nat); lemma_pow2_pos(k as nat);
+    lemma_u128_shr_is_div(n, sr as u128);
+    lemma_u128_shr_is_div(n, 64);
+    let low = (n as nat) % pow2(64);
+    lemma_fundamental_div_mod(n as int, pow2(64) as int);
+    lemma_mod_bound(n as int, pow2(64) as int);
+    assert(high as nat == (n as nat) / pow2(64));
+    lemma_pow2_adds((64 - hlz) as nat, 64);
+    assert((n as nat) < pow2((128 - hlz) as nat)) by(nonlinear_arith)
+        requires n as nat == pow2(64) * (high as nat) + low, low < pow2(64), (high as nat) + 1 <= pow2((64 - hlz) as nat),
+                 pow2((128 - hlz) as nat) == pow2((64 - hlz) as nat) * pow2(64);
+    lemma_pow2_adds(sr as nat, (63 - d_ctlz) as nat);
+    assert((128 - hlz) as nat == sr as nat + (63 - d_ctlz) as nat);
+    assert((n as nat) / pow2(sr as nat) < pow2((63 - d_ctlz) as nat)) by {
+        lemma_div_by_multiple_is_strongly_ordered(n as int, (pow2(sr as nat) * pow2((63 - d_ctlz) as nat)) as int, pow2((63 - d_ctlz) as nat) as int, pow2(sr as nat) as int);
+        lemma_div_multiples_vanish(pow2((63 - d_ctlz) as nat) as int, pow2(sr as nat) as int);
+        assert(pow2(sr as nat) * pow2((63 - d_ctlz) as nat) == pow2((63 - d_ctlz) as nat) * pow2(sr as nat)) by(nonlinear_arith);
+    }
+    assert((r as nat) < d as nat);
+    let hi = (n >> sr) as u128;
+    let xn = (n as nat) % pow2(sr as nat);
+    lemma_fundamental_div_mod(n as int, pow2(sr as nat) as int);
+    lemma_mod_bound(n as int, pow2(sr as nat) as int);
+    lemma_pow2_adds(sr as nat, k as nat);
+    assert(pow2(128) == 0x1_0000_0000_0000_0000nat * 0x1_0000_0000_0000_0000nat);
+    assert((hi as nat) * pow2(sr as nat) <= n as nat) by(nonlinear_arith)
+        requires n as nat == pow2(sr as nat) * (hi as nat) + xn;
+    lemma_shl_mul(hi, sr as nat);
+    let hs = (hi << sr) as u128;
+    assert(hs as nat == (hi as nat) * pow2(sr as nat));
+    let x = (n - hs) as u128;
+    assert(x as nat == xn) by(nonlinear_arith)
+        requires n as nat == pow2(sr as nat) * (hi as nat) + xn, hs as nat == (hi as nat) * pow2(sr as nat), x as nat == n as nat - hs as nat;
+    assert((x as nat) * pow2(k as nat) < pow2(128)) by(nonlinear_arith)
+        requires (x as nat) + 1 <= pow2(sr as nat), pow2(sr as nat) * pow2(k as nat) == pow2(128), pow2(k as nat) >= 1;
+    lemma_shl_mul(x, k as nat);
+    assert(n << k == ((n - ((n >> sr) << sr)) as u128) << k) by(bit_vector) requires k == (128 - sr) as u32, 2 <= sr <= 127;
+    assert(q as nat == xn * pow2(k as nat));
+    assert(0nat * (d as nat) == 0) by(nonlinear_arith);
+    assert(0nat / 2 == 0);
+}
+'''
+
 SLOW = r'''
 fn div128::slow_u128_divrem
-  assumed
+  sub /\(d\.leading_zeros\(\)\)/ => /(u64_leading_zeros(d))/
+  sub /\(n >> 64\) as u64/ => /#[verifier::truncate] ((n >> 64) as u64)/
+  sub /let low = n as u64;/ => /let low = #[verifier::truncate] (n as u64);/
+  sub /let s = \(d as u128\)\.wrapping_sub\(r\)\.wrapping_sub\(1\) as i128 >> 127;/ => /let x = (d as u128).wrapping_sub(r).wrapping_sub(1); let s = #[verifier::truncate] (x as i128) >> 127;/
+  sub /carry = \(s & 1\) as u64;/ => /carry = #[verifier::truncate] ((s & 1) as u64);/
+  sub /r -= \(d as u128\) & s as u128;/ => /let m = #[verifier::truncate] (s as u128); proof { lemma_smask(d, r, x, s, m, carry); } r -= (d as u128) & m;/
   spec <<<
-    requires d > 0
+    requires d >= 2, d_ctlz == u64_leading_zeros(d)
     ensures ret.0 as nat == n as nat / d as nat, ret.1 as nat == n as nat % d as nat
+>>>
+  before /let low =/ <<<
+        assert(n < 0x1_0000_0000_0000_0000u128) by(bit_vector) requires #[verifier::truncate] ((n >> 64) as u64) == 0u64;
+>>>
+  before /let sr =/ <<<
+    proof {
+        lemma_lz(d); lemma_lz(high); lemma2_to64();
+        if d_ctlz == 63 { assert(pow2(1) == 2); assert(false); }
+    }
+>>>
+  after /let mut carry: u64 = 0;/ <<<
+    let ghost mut qq: nat = 0;
+    proof { lemma_sinit(n, d, d_ctlz, high, sr, q, r); }
+>>>
+  loop 1 <<<
+        invariant i <= sr, 2 <= sr <= 127, d >= 2,
+            sinv(n as nat, d as nat, (sr - i) as nat, q as nat, r as nat, carry as nat, qq),
+        decreases sr - i
+>>>
+  before /r = \(r << 1\) \| \(q >> 127\);/ <<<
+        let ghost top = q >> 127;
+        proof {
+            lemma2_to64(); lemma_p127();
+            lemma_u128_shr_is_div(q, 127);
+            assert((n as nat) < pow2(128)) by { lemma_pow2_adds(64, 64); }
+            assert((d as nat) < pow2(64));
+            lemma_sstep(n as nat, d as nat, (sr - i + 1) as nat, q as nat, r as nat, carry as nat, qq, top as nat,
+                if 2 * r + top >= d { 1nat } else { 0nat });
+            assert(((r << 1) | top) == r * 2 + top) by(bit_vector) requires r < 0x1_0000_0000_0000_0000u128, top <= 1u128;
+            assert(((q << 1) | (carry as u128)) == (q % 0x8000_0000_0000_0000_0000_0000_0000_0000u128) * 2 + (carry as u128)) by(bit_vector) requires carry <= 1u64;
+        }
+>>>
+  after /r -= \(d as u128\) & m;/ <<<
+        proof { qq = 2 * qq + carry as nat; }
+>>>
+  before /\(\(q << 1\) \| carry as u128, r as u64\)/ <<<
+    proof {
+        lemma2_to64(); lemma_p127();
+        assert(pow2(0) == 1);
+        assert(n as nat / 1 == n as nat);
+        lemma_fundamental_div_mod_converse(n as int, d as int, qq as int, r as int);
+        lemma_fundamental_div_mod(qq as int, 2);
+        assert((n as nat) % pow2(0) == 0);
+        assert(0 * pow2(128) == 0) by(nonlinear_arith);
+        assert(q as nat == qq / 2);
+        assert(qq == 2 * (q as nat) + carry as nat);
+        assert(((q << 1) | (carry as u128)) == q * 2 + (carry as u128)) by(bit_vector) requires q < 0x8000_0000_0000_0000_0000_0000_0000_0000u128, carry <= 1u64;
+    }
 >>>
 end
 '''
+
